@@ -62,7 +62,58 @@ def run(report, tier, seed):
                 continue
             report.count("models")
             _cuts(report, lab, lean, rng, quick, seed)
+        _old_version_cuts(report, sc, ybin, lean, rng, quick, seed)
         lean.close()
+
+
+def _old_version_cuts(report, sc, ybin, lean, rng, quick, seed):
+    """streams written for a *previous* version, cut at every prefix, through the reader of the current version (its compatibility code reads
+    and drops removed fields, converts changed ones): every cut is an error. The removed fields are the last data of the stream."""
+    from checks import c05
+    P = lambda p: ["prim", p]
+    old = [["a", P("int32")], ["notes", P("string")], ["samples", ["vec", P("float32"), None]], ["tags", ["vec", P("string"), None]], ["o", ["opt", P("string")]]]
+    chains = []
+    for keep in ([old[0]], [old[0], old[1]], [old[0], old[2]]):
+        steps = lambda: [["s", ["ref", "R"], True], ["footer", ["ref", "R"], False]]
+        chains.append((f"c16:removed-trailing-fields-{len(chains)}", [c05._version([["rec", old, "R"]], steps()), c05._version([["rec", keep, "R"]], steps())]))
+    inproc = vlib.build_go_harness(sc, "inproc")
+    import modelgen as mg
+    for j, fixed in enumerate(chains if not quick else chains[:2]):
+        lab = c05.Chain(sc, ybin, inproc, seed, 5000 + j, fixed=fixed)
+        lab.prepare()
+        if lab.err:
+            report.violation(lab.stage + ":evolved-model", {"seed": seed, "chain": fixed[0], "error": lab.err, "files": lab.files()}, "an accepted evolution does not generate / compile")
+            continue
+        g = mg.Gen(seed * 31 + j)
+        oldp = lab.protos[0]
+        for k in range(2 if quick else 6):
+            vals = g.gen_step_vals(oldp)
+            if k == 0:
+                # a long removed string at the very end (longer than the reader's buffer when k == 0 and not quick)
+                for v in vals:
+                    if v[0] == "single" and v[1][0] == "rec":
+                        v[1][1][1] = ["s", ("n" * (70000 if not quick else 300)).encode().hex()]     # field `notes`
+            parts = [g.gen_partition(len(v[1])) if v[0] == "stream" else [] for v in vals]
+            enc = bytes.fromhex(lean.ask({"op": "enc_proto", "proto": oldp, "parts": parts, "vals": vals, "schema": lab.schemas[0]})["hex"])
+            full_in, full_out = os.path.join(lab.root, f"t{k}.in"), os.path.join(lab.root, f"t{k}.out")
+            open(full_in, "wb").write(enc)
+            rc, err = lab.run_cpp("cur", full_in, full_out, [2])
+            if rc != 0:
+                report.violation("cpp:old-version:complete-stream-rejected", {"chain": fixed[0], "vals": vals, "stderr": err[-500:], "seed": seed}, "")
+                continue
+            n = len(enc)
+            cuts = sorted(set(list(range(max(0, n - 400), n)) + [rng.randrange(n) for _ in range(40)] + [n - 1 - 4096 * i for i in range(1, 20) if n - 1 - 4096 * i > 0]))
+            for cut in cuts:
+                cin, cout = os.path.join(lab.root, f"t{k}.cut"), os.path.join(lab.root, f"t{k}.cout")
+                open(cin, "wb").write(enc[:cut])
+                rc, err = lab.run_cpp("cur", cin, cout, [2])
+                report.case(distinct_key=("old-version-cut", fixed[0], k, cut))
+                report.count("old-version.cuts")
+                if rc == 0:
+                    report.violation("cpp:old-version:truncated-stream-accepted", {"chain": fixed[0], "stream_length": n, "cut_at": cut, "vals": vals if n < 2000 else "(long)",
+                                                                                  "seed": seed},
+                                     "a stream of a previous version cut before its end is read to completion without an error")
+                    break
 
 
 def _witnesses(report, sc, lean):
